@@ -13,6 +13,11 @@ fn checked_i64(res: Option<i64>, op: BinOp) -> Result<Primitive, OperatorError> 
         .ok_or_else(|| OperatorError::overflow(op, PrimitiveKind::Integer))
 }
 
+/// An unsigned value as a signed one, `None` beyond `i64::MAX` (a plain cast wraps).
+fn signed(n: u64) -> Option<i64> {
+    i64::try_from(n).ok()
+}
+
 /// Wraps a checked u64 result, turning overflow (`None`) into an `Overflow` error.
 fn checked_u64(res: Option<u64>, op: BinOp) -> Result<Primitive, OperatorError> {
     res.map(Primitive::PositiveInteger)
@@ -236,9 +241,9 @@ impl ApplyOp for i64 {
                 ),
             },
             Primitive::PositiveInteger(n) => match op {
-                BinOp::Add => checked_i64(self.checked_add(*n as i64), BinOp::Add),
-                BinOp::Sub => checked_i64(self.checked_sub(*n as i64), BinOp::Sub),
-                BinOp::Mul => checked_i64(self.checked_mul(*n as i64), BinOp::Mul),
+                BinOp::Add => checked_i64(signed(*n).and_then(|n| self.checked_add(n)), BinOp::Add),
+                BinOp::Sub => checked_i64(signed(*n).and_then(|n| self.checked_sub(n)), BinOp::Sub),
+                BinOp::Mul => checked_i64(signed(*n).and_then(|n| self.checked_mul(n)), BinOp::Mul),
                 BinOp::Div => checked_div(*self as f64, *n as f64),
                 op @ (BinOp::And | BinOp::Or | BinOp::Xor | BinOp::Implies | BinOp::Iff) => Err(
                     OperatorError::unsupported_bin_operation(op, PrimitiveKind::Integer),
@@ -298,7 +303,10 @@ impl ApplyOp for u64 {
         match to {
             Primitive::PositiveInteger(n) => match op {
                 BinOp::Add => checked_u64(self.checked_add(*n), BinOp::Add),
-                BinOp::Sub => checked_i64((*self as i64).checked_sub(*n as i64), BinOp::Sub),
+                BinOp::Sub => checked_i64(
+                    signed(*self).and_then(|a| signed(*n).and_then(|n| a.checked_sub(n))),
+                    BinOp::Sub,
+                ),
                 BinOp::Mul => checked_u64(self.checked_mul(*n), BinOp::Mul),
                 BinOp::Div => checked_div(*self as f64, *n as f64),
                 op @ (BinOp::And | BinOp::Or | BinOp::Xor | BinOp::Implies | BinOp::Iff) => Err(
@@ -306,9 +314,15 @@ impl ApplyOp for u64 {
                 ),
             },
             Primitive::Integer(n) => match op {
-                BinOp::Add => checked_i64((*self as i64).checked_add(*n), BinOp::Add),
-                BinOp::Sub => checked_i64((*self as i64).checked_sub(*n), BinOp::Sub),
-                BinOp::Mul => checked_i64((*self as i64).checked_mul(*n), BinOp::Mul),
+                BinOp::Add => {
+                    checked_i64(signed(*self).and_then(|a| a.checked_add(*n)), BinOp::Add)
+                }
+                BinOp::Sub => {
+                    checked_i64(signed(*self).and_then(|a| a.checked_sub(*n)), BinOp::Sub)
+                }
+                BinOp::Mul => {
+                    checked_i64(signed(*self).and_then(|a| a.checked_mul(*n)), BinOp::Mul)
+                }
                 BinOp::Div => checked_div(*self as f64, *n as f64),
                 op @ (BinOp::And | BinOp::Or | BinOp::Xor | BinOp::Implies | BinOp::Iff) => Err(
                     OperatorError::unsupported_bin_operation(op, PrimitiveKind::PositiveInteger),
@@ -325,7 +339,10 @@ impl ApplyOp for u64 {
             },
             Primitive::Boolean(n) => match op {
                 BinOp::Add => checked_u64(self.checked_add(*n as u64), BinOp::Add),
-                BinOp::Sub => checked_i64((*self as i64).checked_sub(*n as i64), BinOp::Sub),
+                BinOp::Sub => checked_i64(
+                    signed(*self).and_then(|a| a.checked_sub(*n as i64)),
+                    BinOp::Sub,
+                ),
                 BinOp::Mul => checked_u64(self.checked_mul(*n as u64), BinOp::Mul),
                 BinOp::Div => checked_div(*self as f64, *n as u8 as f64),
                 op @ (BinOp::And | BinOp::Or | BinOp::Xor | BinOp::Implies | BinOp::Iff) => Err(
